@@ -124,6 +124,14 @@ impl Compound {
             .collect()
     }
 
+    /// Raise the unit to the given integer power.
+    pub(crate) fn pow(&self, power: i32) -> Self {
+        self.names
+            .iter()
+            .map(|(unit, state)| (*unit, (state.power * power, state.prefix)))
+            .collect()
+    }
+
     /// Test if this unit has a numerator.
     pub fn has_numerator(&self) -> bool {
         self.names.values().any(|s| s.power > 0)
